@@ -1694,8 +1694,8 @@ def run(ck):
     ck.assumptions += ['the translate functions, the registries, the SMILES mark rules and the fix_stereo loop are hand-modelled (coq/model/Stereo.v, '
                        'StereoRegistry.v, StereoSmiles.v, StereoFix.v); tie = correspondence (exhaustive argument tuples on small molecules, generated + '
                        'corpus molecules, traced real calls); coordinates are modelled over Z (the code uses floats)',
-                       'chirality detection (__chiral_centers, _chiral_morgan) is not modelled: a parameter of the fix_stereo theorems (its monotonicity is '
-                       'a hypothesis of C12_fix_stereo_spec, observed on every table of the correspondence); toolkit agreement is RDKit search only',
+                       '__chiral_centers is modelled with atoms_rings and the _chiral_morgan classes as inputs (taken from the real code in the correspondence; '
+                       'local variables read with sys.setprofile); _chiral_morgan itself is a parameter (C01 models it); toolkit agreement is RDKit search only',
                        'round-trip theorems assume the reader sees the neighbour order the writer used (parser order = writer visited order)']
     ck.extra['rule'] = ('correspondence: (1) every (molecule, env arrangement incl. malformed, sign) of 5+7+4 seed molecules, random integer points for the '
                         'geometric functions; (2) registries of cumulene chains 2-6 atoms x end decorations, a zoo of hypervalent / metal / charged / '
